@@ -73,7 +73,9 @@ fn main() {
         let ctx = Ctx::new(&prop, Tier::Quick);
         watchdog(1800);
         let code = props::REGISTRY.iter().find(|e| e.id == prop).and_then(|e| (e.replay)(&ctx, &v));
+        if std::env::var("KVH_KEEP_SCRATCH").is_err() {
         let _ = std::fs::remove_dir_all(&ctx.scratch_base);
+    }
         match code {
             Some(c) => std::process::exit(c),
             None => {
